@@ -21,6 +21,14 @@ func genC17(sc *Scenario) {
 		genMaskedOutsider(sc)
 	} else if !sc.ExplicitRoot && simrt.Flip("c17.case-sibling", 0.1) {
 		genCaseSibling(sc)
+	} else if simrt.Flip("c17.extensionless-twin", 0.05) {
+		genExtensionlessTwin(sc)
+	} else if simrt.Flip("c17.hyphenated-root", 0.08) {
+		// the file named on the command line may carry hyphens (its Go package gets underscores,
+		// its directory keeps the hyphens)
+		b := sc.Prog.Files[0].Base
+		sc.Prog.Files[0].Base = b[:len(b)/2] + "-" + b[len(b)/2:]
+		sc.PluginAPI, sc.APICrossParent = false, false // the built-in generator does not take hyphenated modules
 	} else if simrt.Flip("c17.odd-root-file", 0.06) {
 		switch simrt.Choice("c17.odd-root-file-kind", 2) {
 		case 0:
@@ -115,6 +123,41 @@ func genMaskedOutsider(sc *Scenario) {
 	}
 	p.Files[pr.out].Base = p.Files[pr.in].Base
 	sc.ExplicitRoot, sc.RootRel = true, "thrift/a"
+}
+
+// genExtensionlessTwin gives one file the location and base name of another, minus the
+// ".thrift": two Thrift files (shared.thrift and shared) that map to one Go package and one
+// output file - a conflict between two of the core generator's own modules.
+func genExtensionlessTwin(sc *Scenario) {
+	p := sc.Prog
+	nf := len(p.Files)
+	includes := func(i, j int) bool {
+		for _, k := range p.Files[i].Includes {
+			if k == j {
+				return true
+			}
+		}
+		return false
+	}
+	type pair struct{ a, b int }
+	var pairs []pair
+	for j := 0; j < nf; j++ {
+		for k := 1; k < nf; k++ { // the twin is never the file named on the command line
+			ok := j != k && !includes(j, k) && !includes(k, j)
+			for i := 0; i < nf && ok; i++ {
+				ok = !(includes(i, j) && includes(i, k))
+			}
+			if ok {
+				pairs = append(pairs, pair{j, k})
+			}
+		}
+	}
+	if len(pairs) == 0 {
+		return
+	}
+	pr := pairs[simrt.Choice("c17.twin-pair", len(pairs))]
+	p.Files[pr.b].Dir, p.Files[pr.b].Base, p.Files[pr.b].NoExt = p.Files[pr.a].Dir, p.Files[pr.a].Base, true
+	sc.Twin = [2]int{pr.a + 1, pr.b + 1}
 }
 
 // genCaseSibling moves some files of a program with a derived root into a directory
@@ -399,6 +442,9 @@ func hostFaults(sc *Scenario) []string {
 	}
 	if !ancestryOK(sc) {
 		out = append(out, "a Thrift file lies outside the thrift root")
+	}
+	if sc.Twin[0] > 0 && !(sc.NoRecurse || sc.OutputFile != "") {
+		out = append(out, "two Thrift files map to one package and one output file")
 	}
 	if strings.Contains(sc.OutputFile, "/") {
 		// the single output file goes into the Thrift file's package directory;
